@@ -1771,6 +1771,18 @@ func (rpi RetentionPolicyInfo) clone() RetentionPolicyInfo {
 		}
 	}
 
+	// DropSubscription shifts entries in place: a clone must not share the
+	// subscription list (nor the destination lists) with the original.
+	if rpi.Subscriptions != nil {
+		other.Subscriptions = make([]SubscriptionInfo, len(rpi.Subscriptions))
+		for i := range rpi.Subscriptions {
+			other.Subscriptions[i] = rpi.Subscriptions[i]
+			if rpi.Subscriptions[i].Destinations != nil {
+				other.Subscriptions[i].Destinations = append([]string(nil), rpi.Subscriptions[i].Destinations...)
+			}
+		}
+	}
+
 	return other
 }
 
